@@ -131,6 +131,10 @@ class AttrConstantPattern(AttrPattern):
             ir.AttributeType.FLOATS,
             ir.AttributeType.STRINGS,
         }:
+            # A scalar or a string never equals a list-valued attribute
+            # (a string is not the list of its characters).
+            if isinstance(self._value, (str, bytes)) or not isinstance(self._value, Sequence):
+                return False
             # Since the type of attr.value is Sequence, we need to convert to the same type for comparison.
             return tuple(attr.value) == tuple(self._value)
         return attr.value == self._value
